@@ -310,7 +310,7 @@ static int run_c12(uint64_t seed, long scenarios) {
       // differences need fewer bytes than those of the points that follow)
       const bool clustered = r.coin(1, 3);
       if (clustered) {
-        const size_t third = vals.size() / 3;
+        const size_t third = vals.size() / 3 + 2;      // a little more than a third of the points
         std::stable_partition(vals.begin(), vals.end(), [&](const std::vector<float> &a) { return std::find(border.begin(), border.end(), a) == border.end(); });
         for (size_t i = 0; i < third && i < (size_t)ni; ++i) for (int c = 0; c < 3; ++c) vals[i][c] = origin[c] + range * 0.003f * (float)r.unit();
       }
@@ -327,7 +327,7 @@ static int run_c12(uint64_t seed, long scenarios) {
       View vn, vs, vo;
       const int np = (int)vals.size();
       if (e.ok) { vn = view(e, ty, 3, np, false); vs = view(e, ty, 3, np, true); if (extra_type) vo = view(e, ty, 3, np, false, (int)GeometryAttribute::POSITION); }
-      out.begin("XTile").i("sc", sc).i("tile", tile).s("m", mn[ro.mode]).i("es", ro.es).i("pred", ro.pred).b("expert", ro.expert)
+      out.begin("XTile").i("sc", sc).i("tile", tile).s("m", mn[ro.mode]).i("es", ro.es).i("pred", ro.pred).b("expert", ro.expert).b("builtin", ro.builtin)
           .b("eok", e.ok).s("err", e.err).b("dok", vn.ok).b("skipok", vs.ok && vs.has_transform).raw("min", jf(vs.mn)).i("srange", fbits(vs.range)).i("bits", vs.bits);
       std::string xs = "[", xd = "[", ks = "[", xo = "[";
       for (int i = 0; i < np; ++i) {
